@@ -1,3 +1,3 @@
 import SupervisorModel.Basic.DriverKit
 import SupervisorModel.Model.ConfigIO
-def main : IO Unit := Sv.driverMain [("config", Sv.Config.runCase)]
+def main : IO Unit := Sv.driverMain [("config", Sv.Config.runCase), ("include", Sv.Config.runInclude)]
